@@ -363,6 +363,8 @@ def run(chk):
             for lo, hi in cands:
                 if lo <= 0: continue
                 f_lo = fval(dict(env, **{var: lo})); f_hi = fval(dict(env, **{var: hi}))
+                if f_lo != f_lo or f_hi != f_hi:
+                    raise AnalysisError(f'{wherec}: the extracted flux has no floating-point value at {var} = {lo if f_lo != f_lo else hi:.6g} (the boundary probes would be blind there)')
                 bad = (f_hi > f_lo * (1 + 1e-9)) if direction < 0 else (f_hi < f_lo * (1 - 1e-9))
                 if bad and worst[var] is None:
                     worst[var] = (lo, hi, f_lo, f_hi, env)
